@@ -178,6 +178,9 @@ def build_and_resolve(specs, supps, resolver='simple'):
         kw = {k: s[k] for k in ('label', 'category', 'priority', 'kind', 'muted', 'unscored', 'valence', 'score',
                                 'correct', 'title', 'message', 'else_message')}
         objs.append(Feedback(report=report, activate=s['triggered'], fields=dict(s['fields']), **kw))
+        if s.get('strip_message'):
+            # a feedback class or a pool override can leave a triggered feedback without any text of its own
+            objs[-1].message = None
     for s in supps:
         report.suppress(s.get('category'), s.get('label', True), s.get('fields'))
     if resolver == 'simple':
@@ -307,9 +310,33 @@ def bounded_resolve(arg):
             cls = classify(specs, supps)
             failures.append({'id': 'resolve', 'canon': cls, 'detail': '; '.join(diffs),
                              'feedback': specs, 'suppressions': supps, 'expected': want})
+    if prop in ('C02', 'all'):
+        # triggered feedback that carries no message of its own still decides correctness
+        base = {'label': 'a', 'category': 'instructor', 'priority': None, 'kind': None, 'muted': None, 'unscored': None,
+                'triggered': True, 'valence': None, 'score': None, 'correct': None, 'title': None, 'message': 'm',
+                'else_message': None, 'fields': {}}
+        for cat in ('instructor', 'runtime', 'syntax', 'algorithmic', 'specification'):
+            for corr in (None, False, True):
+                for extra in (None, {'label': 'ok', 'category': 'complete', 'correct': True, 'message': 'Done'},
+                              {'label': 'b', 'category': 'instructor', 'correct': False, 'triggered': False}):
+                    specs = [dict(base, category=cat, correct=corr, strip_message=True)]
+                    if extra:
+                        specs.append(dict(base, **extra))
+                    evaluations += 1
+                    distinct.add(('no-message', cat, corr, bool(extra)))
+                    want = reference(specs, [])
+                    try:
+                        diffs = compare(build_and_resolve(specs, []), want, 'C02')
+                    except Exception as e:
+                        diffs = []
+                    if diffs:
+                        failures.append({'id': 'resolve', 'canon': 'triggered feedback without a message',
+                                         'detail': '; '.join(diffs), 'feedback': specs, 'suppressions': [],
+                                         'expected': {'correct': want['correct']}})
     return {'name': 'B-resolve', 'bound': '%d random reports (seed %d): 0-5 real Feedback objects over %d categories, '
             '%d priorities, kinds, muted/unscored flags, activation, valence, %d score forms, 0-2 suppressions of every '
-            'form; simple resolver against a reference resolver typed from the C01-C03 statements' % (
+            'form; simple resolver against a reference resolver typed from the C01-C03 statements; for C02 also 45 reports whose '
+            'triggered feedback has no message of its own' % (
                 n, seed, len(CATS), len(PRIOS), len(SCORES)),
             'evaluations': evaluations, 'distinct_nontrivial': len(distinct),
             'rule': 'distinct = (number of feedback, number of suppressions, set of categories); trivial = empty report',
@@ -460,12 +487,12 @@ def replay_finalize(case, w):
             bad = None
             if clause == 'shown_text_kept' and shown and (ff.message, ff.title) != before[:2]:
                 bad = 'shown message replaced'
-            if clause == 'correct_is_conjunction' and (shown or hide) and ff.correct is not bool(before[2]):
-                bad = 'correct overridden although feedback was shown'
+            if clause == 'correct_is_conjunction' and ff.correct is not bool(before[2]):
+                bad = 'correct is not the conjunction that merge accumulated'
             if clause == 'default_text' and (not shown) and hide and (ff.title, ff.message) != ('No Errors', 'No errors reported.'):
                 bad = 'default text'
             if clause == 'correct_when_nothing_shown' and not shown and not hide and cand.get('label') == 'set_correct_no_errors' \
-                    and cand.get('category') == 'complete' and (ff.correct is not True or ff.score != 1):
+                    and cand.get('category') == 'complete' and before[2] and (ff.correct is not True or ff.score != 1):
                 bad = 'default result not correct'
             if clause == 'success_is_correct' and ff.success is not ff.correct:
                 bad = 'success differs'
